@@ -54,6 +54,22 @@ def run_maxflow(case):
     labs = [_label(kind, i) for i in range(n)]
     ids = {lb: i for i, lb in enumerate(labs)}
     g = {}
+    ko = case.get("key_order") or {2: "rev", 1: "far"}.get(cont_mode(case))
+    if ko == "rev":
+        # rows listed head-before-tail (descending node order): the residual structure must not depend on the order of the rows
+        for i in sorted({u for u, _, _, _ in case["arcs"]}, reverse=True):
+            g[_fresh(labs[i])] = []
+    elif ko == "far":
+        # rows listed from the sink side towards the source (descending BFS distance from the source)
+        dist = {case["s"]: 0}
+        q = [case["s"]]
+        for a in q:
+            for u, v, c, _ in case["arcs"]:
+                if u == a and v not in dist:
+                    dist[v] = dist[a] + 1
+                    q.append(v)
+        for i in sorted({u for u, _, _, _ in case["arcs"]}, key=lambda x: (-dist.get(x, 99), -x)):
+            g[_fresh(labs[i])] = []
     for u, v, c, _ in case["arcs"]:
         g.setdefault(_fresh(labs[u]), []).append((_fresh(labs[v]), c) if case.get("two_tuple", True) else (_fresh(labs[v]), c, 0))
     if case.get("all_keys"):
@@ -270,7 +286,9 @@ def run_maxflow_bulk(case):
         cov["partial_cancellation"] += part
         cov["full_cancellation"] += full
         cov["push_again_after_cancellation"] += again
-        if part or again or (full and rng.random() < 0.05) or rng.random() < 0.005:
+        # the templates are built to NEED a cancellation: a share of them is kept whatever the execution did, so that an execution
+        # that should have cancelled and did not is validated too (selecting on the event alone would drop exactly those)
+        if part or again or (full and rng.random() < 0.05) or rng.random() < 0.005 or (r < 0.4 and rng.random() < 0.04):
             cov["sampled"] += 1
             tr["coverage"] = "PartialCancellation" if part else ("PushAgainAfterCancellation" if again else "sample")
             kept.append(tr)
@@ -501,6 +519,11 @@ def gen_assign(rng):
     case = {"matrix": [[rng.randint(-3, 9) for _ in range(c)] for _ in range(r)], "floats": rng.random() < 0.3}
     if not case["floats"] and rng.random() < 0.25:
         case["shift"] = rng.choice(BIG)
+    if rng.random() < 0.12:
+        # one side with 11-13 rows / columns (two-digit positions), the other small enough for the subset oracle
+        a, b = rng.randint(1, 3), rng.randint(11, 13)
+        r, c = (a, b) if rng.random() < 0.5 else (b, a)
+        case = {"matrix": [[rng.randint(0, 9) for _ in range(c)] for _ in range(r)], "floats": False}
     return case
 
 
